@@ -2,6 +2,9 @@ import CssVerif.Lemmas.StrCodec
 import CssVerif.Lemmas.StrExact
 import CssVerif.Gen.C03Productions
 import CssVerif.Gen.C05Productions
+import CssVerif.Lemmas.SheetCanonPrune
+import CssVerif.Lemmas.SheetCanonBlind
+import CssVerif.Props.C02
 /-!
 # C03 — serialise-then-parse is lossless; serialisation is a fixpoint (content codecs)
 
@@ -178,5 +181,120 @@ theorem finding_ident_not_reescaped :
 example : Gen.C03.stringRe = Gen.C05.reSTRING ∧ Gen.C03.uriRe = Gen.C05.reURI ∧ Gen.C03.identRe = Gen.C05.reIDENT ∧
     Gen.C03.commentRe = Gen.C05.reCOMMENT ∧ Gen.C03.unicodesubRe = Gen.C05.unicodesubRe ∧
     Gen.C03.stringsubRe = Gen.C05.stringsubRe := by decide
+
+/-! ## sheet level (structure): parse ∘ serialise is the identity, serialise is a fixpoint
+
+Models: `Model/SheetCanon.lean` — `canon s`, the spelling `CSSSerializer` (default preferences) gives to the sheet parsed
+from the spelled sheet `s`: the rules that serialise to nothing are left out (`prune`: `keepEmptyRules = False`), the
+others are laid out (line separators, indentation, `;` placement, declarations before margin boxes, keyword and name
+case, quote style of targets); `serialise s = render (canon s)`, the tokens of `sheet.cssText` — on top of C02's
+structure kernel (`Model/Struct.lean`, `Model/AtRules.lean`, `Model/SheetSpec.lean`) and C02's theorem `parse_render`.
+Every abstract sheet is `s.erase` of its spellings `s`, so `∀ s` below is `∀ abstract sheet, ∀ source spelling of it`.
+Hypotheses: `s.WF O M` (C02: the source is a well-formed sheet in the sense of `parse_render`); `HrefSafe s` (targets
+without a backslash: the content-level `Safe` of the first part of this file); `Accepts O (canon s)` (the selector /
+value / media-query parsers accept these parts with the blanks and comments the serializer puts around them: C16 / C17 /
+C18); `TidyL (render s)` (tokens typed S or COMMENT are no brackets: a tokenizer invariant that the abstract token type
+does not enforce).  Tie: `tools/harness/c03_canon.py` — `serialise s` = the real tokenizer on the real `cssText`, token
+by token, for generated spelled sheets of every rule kind, empty rules included. -/
+open CssVerif.SheetSpec CssVerif.Struct CssVerif.AtRules CssVerif.SheetCanon
+
+/-- T3.S0: what the serializer writes denotes the abstract sheet of the source without the rules that are not written —
+every other rule in order with its selector groups, declarations (name, value, priority), media queries, import target,
+namespace binding, comments. -/
+theorem canon_erase (s : SSheet) : (canon s).erase = (prune s).erase := canon_erase_aux s
+
+/-- T3.S1: what the serializer writes is again a well-formed sheet in the sense of `parse_render`. -/
+theorem canon_wf (O : Oracle) (M : List Cps) (s : SSheet) (h : s.WF O M) (hs : HrefSafe s)
+    (ha : Accepts O (canon s)) (ht : TidyL (render s)) : (canon s).WF O M :=
+  canon_wf_aux O M s h hs ha ht
+
+/-- **T3.S2 parse_serialise** (`parse (serialise s) = s` at structure level): the DOM projection of what the parser
+builds from the serialisation is the abstract sheet (without the rules that serialise to nothing) — the same rules in
+the same order, selectors, declarations, values, priorities, media, import targets, namespace bindings, comments at rule
+and declaration level. -/
+theorem parse_serialise (O : Oracle) (M : List Cps) (hO : AtFaithful O) (s : SSheet) (h : s.WF O M) (hs : HrefSafe s)
+    (ha : Accepts O (canon s)) (ht : TidyL (render s)) :
+    projSheet O M (parseSheet O M (serialise s)) = (prune s).erase := by
+  unfold serialise
+  rw [C02.parse_render O M hO (canon s) (canon_wf_aux O M s h hs ha ht), canon_erase_aux]
+
+/-- when every rule of the sheet is written (`prune s = s`: no empty block, no `@media` without a written rule), the
+reparsed sheet has exactly the abstract sheet of the source … -/
+theorem parse_serialise_visible (O : Oracle) (M : List Cps) (hO : AtFaithful O) (s : SSheet) (h : s.WF O M)
+    (hs : HrefSafe s) (ha : Accepts O (canon s)) (ht : TidyL (render s)) (hv : prune s = s) :
+    projSheet O M (parseSheet O M (serialise s)) = s.erase := by
+  rw [parse_serialise O M hO s h hs ha ht, hv]
+
+/-- … which is the DOM projection of the sheet parsed from the source -/
+theorem reparse_same_dom (O : Oracle) (M : List Cps) (hO : AtFaithful O) (s : SSheet) (h : s.WF O M) (hs : HrefSafe s)
+    (ha : Accepts O (canon s)) (ht : TidyL (render s)) (hv : prune s = s) :
+    projSheet O M (parseSheet O M (serialise s)) = projSheet O M (parseSheet O M (render s)) := by
+  rw [parse_serialise_visible O M hO s h hs ha ht hv, C02.parse_render O M hO s h]
+
+/-- all spellings of one abstract sheet are serialised to texts that parse to the same abstract sheet -/
+theorem serialise_spelling_invariant (O : Oracle) (M : List Cps) (hO : AtFaithful O) (s₁ s₂ : SSheet)
+    (h₁ : s₁.WF O M) (h₂ : s₂.WF O M) (hs₁ : HrefSafe s₁) (hs₂ : HrefSafe s₂)
+    (ha₁ : Accepts O (canon s₁)) (ha₂ : Accepts O (canon s₂)) (ht₁ : TidyL (render s₁)) (ht₂ : TidyL (render s₂))
+    (he : (prune s₁).erase = (prune s₂).erase) :
+    projSheet O M (parseSheet O M (serialise s₁)) = projSheet O M (parseSheet O M (serialise s₂)) := by
+  rw [parse_serialise O M hO s₁ h₁ hs₁ ha₁ ht₁, parse_serialise O M hO s₂ h₂ hs₂ ha₂ ht₂, he]
+
+/-- the acceptance hypothesis is not needed for a sub-parser oracle that does not look at the white space of the gaps
+around selectors / values / media queries nor at the quote style of `@charset` (`GapBlind O`, a property of the oracle
+alone; the real sub-parsers skip S tokens there): acceptance of the source (part of `s.WF O M`) carries over -/
+theorem accepts_serialised (O : Oracle) (M : List Cps) (hB : GapBlind O) (s : SSheet) (h : s.WF O M) :
+    Accepts O (canon s) :=
+  accepts_of_blind O hB M s h
+
+/-- **parse_serialise for gap-blind oracles**: no per-sheet hypothesis beyond well-formedness of the source, backslash-free
+targets and the tokenizer invariant -/
+theorem parse_serialise_blind (O : Oracle) (M : List Cps) (hO : AtFaithful O) (hB : GapBlind O) (s : SSheet)
+    (h : s.WF O M) (hs : HrefSafe s) (ht : TidyL (render s)) :
+    projSheet O M (parseSheet O M (serialise s)) = (prune s).erase :=
+  parse_serialise O M hO s h hs (accepts_of_blind O hB M s h) ht
+
+/-- T3.S3: writing what was written changes nothing (no hypothesis): nothing more is left out, the layout is the same -/
+theorem canon_idem (s : SSheet) : canon (canon s) = canon s := canon_idem_aux s
+
+/-- **T3.S3 serialise_fixpoint** (`serialise (parse (serialise s)) = serialise s`): the sheet parsed from the
+serialisation is the sheet of the spelled sheet `canon s` (`parse_of_serialise` below), and serialising that gives the
+same tokens again. -/
+theorem serialise_fixpoint (s : SSheet) : serialise (canon s) = serialise s := by
+  unfold serialise; rw [canon_idem_aux]
+
+/-- the parse of the serialisation IS the parse of the spelled sheet `canon s`, rule by rule (not only its projection) -/
+theorem parse_of_serialise (O : Oracle) (M : List Cps) (hO : AtFaithful O) (s : SSheet) (h : s.WF O M) (hs : HrefSafe s)
+    (ha : Accepts O (canon s)) (ht : TidyL (render s)) :
+    parseSheet O M (serialise s) = (canon s).parsed O :=
+  parseSheet_render O M hO (canon s) (canon_wf_aux O M s h hs ha ht)
+
+/-- second round: the second serialisation reparses to the same abstract sheet as the first -/
+theorem parse_second_serialisation (O : Oracle) (M : List Cps) (hO : AtFaithful O) (s : SSheet) (h : s.WF O M)
+    (hs : HrefSafe s) (ha : Accepts O (canon s)) (ht : TidyL (render s)) :
+    projSheet O M (parseSheet O M (serialise (canon s))) = (prune s).erase := by
+  rw [serialise_fixpoint, parse_serialise O M hO s h hs ha ht]
+
+/-- nothing that is written is left out the second time -/
+theorem prune_canon (s : SSheet) : prune (canon s) = canon s :=
+  prune_canonV _ (prune_idem s)
+
+/-! non-vacuity: the example sheet of C02 (every rule kind, comments in gaps, upper case, escapes, both quote styles) -/
+example : HrefSafe C02.Ex2.sheet := by
+  refine ⟨?_, ?_⟩ <;> intro p hp <;> simp [C02.Ex2.sheet] at hp <;> subst hp <;>
+    simp [impSafe, nsSafe, C02.Ex2.href, SHref.value] <;> decide
+example : Accepts C02.Ex2.O (canon C02.Ex2.sheet) :=
+  accepts_of_yes _ (fun _ => rfl) (fun _ _ => rfl) (fun _ => rfl) (fun _ => rfl) _
+example : TidyL (render C02.Ex2.sheet) := by unfold TidyL; decide +kernel
+/-- every rule of the example sheet is written -/
+example : prune C02.Ex2.sheet = C02.Ex2.sheet := by simp only [prune]; rfl
+example : GapBlind C02.Ex2.O :=
+  ⟨fun _ _ _ _ _ _ _ => rfl, fun _ _ _ _ => rfl, fun _ _ _ _ _ _ _ => rfl, fun _ _ _ => rfl, fun _ _ => rfl⟩
+
+/-- tests (evaluation), not theorems: every rule of the example sheet is written; its serialisation has 10 rules again;
+an empty style rule and an `@media` rule around it are left out -/
+example : (pruneRules C02.Ex2.sheet.rules).toks = C02.Ex2.sheet.rules.toks := by decide +kernel
+example : (parseSheet C02.Ex2.O C02.Ex2.M (serialise C02.Ex2.sheet)).length = 10 := by decide +kernel
+example : serialise { rules := .cons (.media [] [] [identTok [0x61]] [] none []
+    (.cons (.style { first := [identTok [0x62]] } {}) [] .nil)) [] .nil } = [eofTok] := by decide +kernel
 
 end CssVerif.C03
